@@ -384,7 +384,7 @@ def make_agent_class():
             for a in acts:
                 self._do(market, market, a)
 
-        def _do(self, market, txn, a):
+        def _do(self, market, txn, a, reraise=False):
             run = self.run
             op = a["op"]
             if "mkt" in a:
@@ -402,6 +402,17 @@ def make_agent_class():
             try:
                 if op == "txn":
                     t = market.transaction(client=self._client())
+                    if a.get("propagate"):
+                        # the strategy does not catch state rejections inside the block: the first one ends the batch
+                        try:
+                            with t:
+                                for i, sub in enumerate(a["acts"]):
+                                    self._do(market, t, sub, reraise=True)
+                                    if i in a.get("exec_after", ()):
+                                        t.execute()
+                        except (_F["OrderUpdateError"], _F["OrderError"]):
+                            run.res.probes["agent.txn.ended_by_exception"] += 1
+                        return
                     with t:
                         for i, sub in enumerate(a["acts"]):
                             self._do(market, t, sub)
@@ -501,6 +512,8 @@ def make_agent_class():
                 run.res.probes["agent.%s.%s" % (op, "ok" if r else "refused")] += 1
             except (_F["OrderUpdateError"], _F["OrderError"]) as e:
                 run.res.probes["agent.%s.rejected" % op] += 1
+                if reraise:
+                    raise
             except RuntimeError as e:
                 if str(e) == "scripted":
                     raise
